@@ -407,7 +407,104 @@ func c19Config(u *vfUnit) {
 		}
 		sess.Close()
 	}
+	c19LiveSession(u)
+	c19ClientKeepsReport(u)
 	u.Sample(map[string]any{"ordered_subsets": len(lists), "invalid_names": invalid})
+}
+
+// c19LiveSession: what a session was promised at its handshake is served for as long as it lives, whatever the
+// process-wide configuration is changed to in the meantime (a new list only concerns sessions that start later).
+func c19LiveSession(u *vfUnit) {
+	defer SetSFTPExtensions("hardlink@openssh.com", "posix-rename@openssh.com", "statvfs@openssh.com")
+	for _, kind := range []vfKind{vfOS, vfRS} {
+		SetSFTPExtensions("hardlink@openssh.com", "posix-rename@openssh.com", "statvfs@openssh.com")
+		cfg := vfSrvCfg{Kind: kind}
+		root := "/"
+		if kind == vfRS {
+			st := vfNewStore()
+			st.Put("/f", []byte("x"))
+			cfg.H = st.Handlers(vfHandlerOpt{OpenFile: true, CmdAll: true, ListAll: true})
+		} else {
+			root = filepath.Join(u.TempDir(), "live") + "/"
+			os.MkdirAll(root, 0o755)
+			os.WriteFile(root+"f", []byte("x"), 0o644)
+		}
+		sess, err := vfConnect(cfg, vfPipeOpts{})
+		if err != nil {
+			u.Inconclusive("connect: %v", err)
+			return
+		}
+		label := kind.String() + "/configuration-changed-during-a-session"
+		try := func(step string, err error) {
+			u.Count("extension_requests_after_reconfiguration", 1)
+			if err != nil {
+				u.Violation("advertised-extension-not-served:"+kind.String(), fmt.Sprintf("%s: %s on a session that was promised all three extensions: %v", label, step, err), nil)
+			}
+		}
+		_, err = sess.C.StatVFS(root)
+		try("StatVFS before any change", err)
+		SetSFTPExtensions("statvfs@openssh.com")
+		try("Link after the list was reduced to statvfs", sess.C.Link(root+"f", root+"hl"))
+		try("PosixRename after the list was reduced to statvfs", sess.C.PosixRename(root+"hl", root+"hl2"))
+		SetSFTPExtensions()
+		_, err = sess.C.StatVFS(root)
+		try("StatVFS after the list was emptied", err)
+		for _, name := range []string{"hardlink@openssh.com", "posix-rename@openssh.com", "statvfs@openssh.com"} {
+			if _, ok := sess.C.HasExtension(name); !ok {
+				u.Violation("client-report-changed:"+kind.String(), fmt.Sprintf("%s: the client no longer reports %s, which this session's VERSION packet advertised", label, name), nil)
+			}
+		}
+		if msg := sess.Close(); msg != "" {
+			u.Violation("session-close", label+": "+msg, nil)
+		}
+	}
+}
+
+// c19ClientKeepsReport: what the client reports is what the VERSION packet said, also after requests that use the
+// extensions were refused by the peer.
+func c19ClientKeepsReport(u *vfUnit) {
+	adv := [][2]string{{"fsync@openssh.com", "1"}, {"posix-rename@openssh.com", "1"}, {"hardlink@openssh.com", "1"}, {"statvfs@openssh.com", "2"}, {"vendor@example.com", "7"}}
+	for _, code := range []uint32{rfUnsupported, rfFailure, rfPermDenied, rfOK} {
+		peer := &vfPeer{
+			VersionFrame: vfPkt{Type: rfVersion, Version: 3, Exts: adv}.Frame(),
+			Handler: func(req vfPkt, raw []byte) []byte {
+				switch req.Type {
+				case rfOpen:
+					return vfPkt{Type: rfHandle, ID: req.ID, Handle: "h"}.Frame()
+				case rfExtended:
+					return vfStatusFrame(req.ID, code, "refused")
+				}
+				return vfStatusFrame(req.ID, rfOK, "")
+			},
+		}
+		c, p, _, ce, err := vfPeerClient(peer, vfPipeOpts{})
+		if err != nil {
+			u.Inconclusive("connect: %v", err)
+			return
+		}
+		label := fmt.Sprintf("peer answers extended requests with status %d", code)
+		f, _ := c.Open("/x")
+		for round := 0; round < 2; round++ {
+			if f != nil {
+				f.Sync()
+			}
+			c.PosixRename("/a", "/b")
+			c.Link("/a", "/c")
+			c.StatVFS("/")
+			for _, e := range adv {
+				u.Count("client_reports_checked", 1)
+				if d, ok := c.HasExtension(e[0]); !ok || d != e[1] {
+					u.Violation("client-report-changed:after-refusal", fmt.Sprintf("%s: after round %d the client reports (%q, %v) for %s, the VERSION packet said %q", label, round, d, ok, e[0], e[1]), nil)
+				}
+			}
+		}
+		if f != nil {
+			f.Close()
+		}
+		p.Stop()
+		vfAwait(vfGo(func() { c.Close() }), 60*time.Second)
+		ce.Close()
+	}
 }
 
 func c19Names(u *vfUnit) {
